@@ -33,23 +33,37 @@ def roles_of(D):
     return n  # n[0] = N-1 ... n[-1] = 0
 
 
+def T_of(alphas):
+    return max(len(a) for a in alphas if not isinstance(a, float))
+
+
+def at(a, t):
+    return a if isinstance(a, float) else a[t]
+
+
 def build(D, alphas):
     N = sum(D) + 1
     n = roles_of(D)
     prog = sf.TDMProgram(N=N)
     with warnings.catch_warnings():
         warnings.simplefilter("ignore")
-        with prog.context(*[list(a) for a in alphas]) as (p, q):
+        arrs = [list(a) for a in alphas if not isinstance(a, float)]
+        with prog.context(*arrs, [0.0] * T_of(alphas)) as (p, q):
+            k = 0
             ops.Sgate(R, 0.0) | q[n[0]]
             for i in range(len(D)):
-                ops.BSgate(p[i], 0.0) | (q[n[i + 1]], q[n[i]])
+                if isinstance(alphas[i], float):
+                    ops.BSgate(alphas[i], 0.0) | (q[n[i + 1]], q[n[i]])  # a constant angle, not a per-bin array
+                else:
+                    ops.BSgate(p[k], 0.0) | (q[n[i + 1]], q[n[i]])
+                    k += 1
             ops.MeasureHomodyne(0.0) | q[0]
     return prog
 
 
 def explicit(D, alphas):
     """fresh mode per pulse; returns the Gaussian state and the mode ids of the measured pulses in bin order"""
-    T = len(alphas[0])
+    T = T_of(alphas)
     N = sum(D) + 1
     n = roles_of(D)
     roles = list(range(N))
@@ -58,7 +72,7 @@ def explicit(D, alphas):
     for t in range(T):
         cmds.append((ops.Sgate(R, 0.0), [roles[n[0]]]))
         for i in range(len(D)):
-            cmds.append((ops.BSgate(alphas[i][t], 0.0), [roles[n[i + 1]], roles[n[i]]]))
+            cmds.append((ops.BSgate(at(alphas[i], t), 0.0), [roles[n[i + 1]], roles[n[i]]]))
         outs.append(roles[0])
         roles[0] = nxt
         nxt += 1
@@ -70,8 +84,8 @@ def explicit(D, alphas):
 
 
 def check(D, alphas, engine, res):
-    case = {"crop": True, "D": list(D), "alphas": [list(map(float, a)) for a in alphas], "engine": engine}
-    T = len(alphas[0])
+    case = {"crop": True, "D": list(D), "alphas": [a if isinstance(a, float) else list(map(float, a)) for a in alphas], "engine": engine}
+    T = T_of(alphas)
     gs, outs = explicit(D, alphas)
     first = T
     for t, m in enumerate(outs):
@@ -92,7 +106,8 @@ def check(D, alphas, engine, res):
     if delays != list(D):
         res.violation(f"C13|get_delays|loops={tag}", f"get_delays() = {delays} for a program built with loop delays {list(D)}", case)
     if crop != first:
-        kind = "bypass" if any(abs(x - PI / 2) < 1e-12 for a in alphas for x in a) else "plain"
+        flat = [x for a in alphas for x in ([a] if isinstance(a, float) else a)]
+        kind = "constant-angle" if any(isinstance(a, float) for a in alphas) else ("pi" if any(abs(x - PI) < 1e-12 for x in flat) else ("bypass" if any(abs(x - PI / 2) < 1e-12 for x in flat) else "plain"))
         res.violation(f"C13|get_crop_value|loops={tag}|{kind}", f"get_crop_value() = {crop}, but in the explicit loop (delays {list(D)}, arrays {case['alphas']}) the first measured pulse that is not vacuum is bin {first}", case)
         return
     if not engine:
@@ -139,8 +154,19 @@ def tasks(quick):
     alpha = [0.0, 0.7, PI / 2]
     out = []
     for D in STRUCTS:
-        arrays = list(itertools.product(alpha, repeat=T))
+        # the value pi (no mixing, like 0) on single loops; on two loops in the thorough tier (with 4 bins)
+        al = alpha + [PI] if len(D) == 1 else alpha
+        arrays = list(itertools.product(al, repeat=T))
         combos = list(itertools.product(arrays, repeat=len(D)))
+        if len(D) == 2 and not quick:
+            a4 = list(itertools.product(alpha + [PI], repeat=4))
+            combos += [c for c in itertools.product(a4, repeat=2) if any(x == PI for a in c for x in a)]
+        if len(D) == 2:
+            # one of the two loops with a constant angle instead of an array
+            base = list(itertools.product(alpha, repeat=T))
+            combos += [(c, a) for c in (0.0, 0.7) for a in base] + [(a, c) for c in (0.0, 0.7) for a in base]
+        else:
+            combos += [(c,) for c in (0.0, 0.7)] if False else []
         ch = max(1, len(combos) // 12)
         for i in range(0, len(combos), ch):
             out.append(("crop", D, combos[i : i + ch], quick))
@@ -154,15 +180,15 @@ def work(task):
         res.n += 1
         # engine-level oracles on every third program with a leading zero (where cropping does something); in thorough on
         # every such single-loop program
-        lead = any(a[0] == 0.0 for a in alphas)
+        lead = any(at(a, 0) == 0.0 for a in alphas)
         check(D, alphas, (lead and (k % 3 == 0 or (not quick and len(D) == 1))), res)
         if lead:
             res.nt += 1
-            res.sample({"crop": True, "delays": list(D), "arrays": [list(map(float, a)) for a in alphas]}, cap=1)
+            res.sample({"crop": True, "delays": list(D), "arrays": [a if isinstance(a, float) else list(map(float, a)) for a in alphas]}, cap=1)
     return res
 
 
 def replay(case):
     res = Res()
-    check(tuple(case["D"]), [tuple(a) for a in case["alphas"]], case["engine"], res)
+    check(tuple(case["D"]), [a if isinstance(a, float) else tuple(a) for a in case["alphas"]], case["engine"], res)
     return [(s, w) for s, w, _ in res.viol]
